@@ -142,6 +142,19 @@ func (vfs *MemFS) searchNode(path string, slMode slMode) (
 			}
 
 			if pi.ReplacePart(c.link) {
+				// the walk restarts at the root of the volume named by the new path.
+				if pi.VolumeNameLen() > 0 {
+					nd, ok := vfs.volumes[pi.VolumeName()]
+					if !ok {
+						child = nil
+						err = vfs.err.NoSuchDir
+
+						return
+					}
+
+					volNode = nd
+				}
+
 				parent = volNode
 			}
 		}
